@@ -2,6 +2,7 @@ package main
 
 import (
 	"fmt"
+	"go/token"
 	"go/types"
 	"strings"
 
@@ -56,7 +57,27 @@ func (w *World) guardUp(fn *ssa.Function, at ssa.Instruction, val ssa.Value, dep
 			for _, g := range gets {
 				set[g] = true
 			}
-			return NilEdges(f, set, true)
+			out := NilEdges(f, set, true)
+			// a module predicate that does nothing but answer `GetAccount(its parameter) != nil` (or HasAccount): the edge
+			// on which it says "no such account"
+			for _, s := range cg.Sites[f] {
+				h := s.Static
+				if h == nil || s.Invoke || h.Blocks == nil || !w.isProdFunc(h) {
+					continue
+				}
+				pi, existsWhenTrue, isW := w.authExistsBoolWrapper(h)
+				if !isW || pi >= len(s.Common().Args) || !isVal(s.Common().Args[pi]) {
+					continue
+				}
+				cv := siteValue(s)
+				out = append(out, EdgesWhere(f, func(base ssa.Value) (bool, bool) {
+					if cv != nil && base == cv {
+						return !existsWhenTrue, true
+					}
+					return false, false
+				})...)
+			}
+			return out
 		}}
 	edges, _ := cg.guardEdgesIn(fn, Bind{}, spec, 0)
 	if MustPass(fn, edges, point) {
@@ -527,4 +548,70 @@ func (w *World) authGetWrapperParam(h *ssa.Function) int {
 		}
 	}
 	return -1
+}
+
+// authExistsBoolWrapper: h is a straight-line predicate `return GetAccount(ctx, p) != nil` / `== nil` /
+// `HasAccount(ctx, p)` (possibly negated) over its own parameter p, with no other effect: the index of p and whether
+// "true" means that the account exists.
+func (w *World) authExistsBoolWrapper(h *ssa.Function) (int, bool, bool) {
+	if len(h.Blocks) != 1 {
+		return -1, false, false
+	}
+	rets := Returns(h)
+	if len(rets) != 1 {
+		return -1, false, false
+	}
+	rv := retVals(rets[0])
+	if len(rv) != 1 || !strings.HasSuffix(typeString(rv[0].Type()), "bool") {
+		return -1, false, false
+	}
+	base, neg := stripNot(rv[0])
+	var call *ssa.Call
+	exists := true
+	switch x := base.(type) {
+	case *ssa.BinOp:
+		if x.Op != token.EQL && x.Op != token.NEQ {
+			return -1, false, false
+		}
+		if isNilConst(x.Y) {
+			call, _ = x.X.(*ssa.Call)
+		} else if isNilConst(x.X) {
+			call, _ = x.Y.(*ssa.Call)
+		}
+		exists = x.Op == token.NEQ
+	case *ssa.Call:
+		call = x
+	}
+	if call == nil {
+		return -1, false, false
+	}
+	if neg {
+		exists = !exists
+	}
+	cg := w.CG()
+	idx := -1
+	for _, s := range cg.Sites[h] {
+		if a := cg.Atom(s); a != "" && a != AuthGet {
+			return -1, false, false
+		}
+		if s.Instr != ssa.CallInstruction(call) {
+			continue
+		}
+		if cg.Atom(s) != AuthGet || (s.Method != "GetAccount" && s.Method != "HasAccount") {
+			return -1, false, false
+		}
+		if _, isBin := base.(*ssa.BinOp); isBin != (s.Method == "GetAccount") {
+			return -1, false, false
+		}
+		args := s.Args()
+		if len(args) == 0 {
+			return -1, false, false
+		}
+		for i, p := range h.Params {
+			if args[len(args)-1] == ssa.Value(p) {
+				idx = i
+			}
+		}
+	}
+	return idx, exists, idx >= 0
 }
